@@ -998,6 +998,50 @@ def r04i(run):
                             "the call loop forever' fails", node=node)
 
 
+def r04j(run):
+    """no short text denotes unbounded work: an integer built from a Decimal that was parsed from the input
+    (`t(Decimal('1e999999999'))` writes out a billion digits) is preceded by a magnitude bound on the Decimal"""
+    T = run.repo.cls("utype.utils.transform", "TypeTransformer")
+    total = 0
+    for f in T.methods.values():
+        fa = analysis(f)
+        if len(f.params) < 3:
+            continue
+        tparam = f.params[2]
+        regs = [d for d in f.node.decorator_list if isinstance(d, ast.Call) and call_attr(d) == "register"]
+        int_target = any(unparse(a) == "int" for d in regs for a in d.args)
+        for n, c in fa.all_calls():
+            callee = unparse(c.func)
+            if not ((callee == tparam and int_target) or callee == "int") or len(c.args) != 1 or not isinstance(c.args[0], ast.Name):
+                continue
+            v = c.args[0].id
+            defs = [d for d in fa.rd.defs_of(n, v) if d.kind == "stmt" and isinstance(d.ast, ast.Assign)
+                    and isinstance(d.ast.value, ast.Call) and unparse(d.ast.value.func) in ("Decimal", "decimal.Decimal")]
+            if not defs:
+                continue
+            total += 1
+            # a test on the magnitude whose true arm raises, on every path from the Decimal construction to the call
+            bounds = [m for m in fa.cfg.nodes if m.kind == "test" and any(
+                isinstance(x, ast.Call) and call_attr(x) in ("adjusted", "logb") and unparse(x.func.value) == v
+                for x in ast.walk(m.ast))]
+            guards = []
+            for m in bounds:
+                for s_, k in m.succ:
+                    if s_.kind == "branch" and any(x.kind == "stmt" and isinstance(x.ast, ast.Raise)
+                                                   for x in fa.cfg.reach_from_succ(s_, kinds=(N,)) | {s_}) \
+                            and n not in fa.cfg.reach_from_succ(s_, kinds=(N,)):
+                        guards.append(m)
+            ok = bool(guards) and all(n not in fa.cfg.reach_from_succ(d, kinds=(N,), avoid=guards) for d in defs)
+            run.check("R04j", f, f"`{unparse(c)}` expands a Decimal parsed from the input only below a digit bound", ok,
+                      construct=f"unbounded integer expansion in {f.name}",
+                      message=f"{f.qualname}: `{unparse(c)}` turns `{v}` (a Decimal built from the input) into an integer "
+                              f"with no test of its magnitude ({v}.adjusted()) in between",
+                      necessity="the 12 characters '1e999999999' denote an integer of a billion digits: writing it out keeps "
+                                "the call busy for hours (quadratic in the exponent) - 'no input makes the call loop forever'",
+                      node=c)
+    run.floor("R04j", "integer expansions of input-built Decimals", total, 1)
+
+
 def check(run):
     run.rules_run += ["R04a", "R04b", "R04c", "R04d", "R04e"]
     run.explain("C04: (R04a) every converter / validator / class-held constructor call in the parse core is inside a "
@@ -1027,3 +1071,5 @@ def check(run):
     r04h(run)
     run.rules_run.append("R04i")
     r04i(run)
+    run.rules_run.append("R04j")
+    r04j(run)
